@@ -80,6 +80,9 @@ func c16Build(v c16Vec, placement int) *c16Decl {
 		u.Choices = []string{"UDFLTX%H", "UCHBX"}
 		if v.def == 0 {
 			u.Choices = []string{"UCHAX", "UCHBX"}
+			if v.env {
+				u.Choices = []string{"UCHBX"} // a single choice is a list of choices too
+			}
 		}
 	}
 	if v.valname {
@@ -96,11 +99,12 @@ func c16Build(v c16Vec, placement int) *c16Decl {
 	}
 	top := &decl.Cmd{Name: "app", SubOptional: true, Desc: "", Opts: []*decl.Opt{by("Top", "t", "toplong", "TOPDESC"),
 		{Field: "Cb", Long: "cbopt", Desc: "CBODESC", Type: decl.TFuncS}, // a callback option: it has no default to show
-		by("One", "", "y", "ONECHARDESC "+c16LongWord)}} // a long name of a single character; its description has a word longer than any description column
+		by("One", "", "y", "ONECHARDESC "+c16LongWord), by("Tiny", "", "tinyopt", "T")}}
+	top.Opts[2].ValueName = "V" // ... and a value name of a single character; Tiny's whole description is one character // a long name of a single character; its description has a word longer than any description column
 	sub := &decl.Group{Field: "SubG", Name: "SUBGNAME", Namespace: "sgns", EnvNamespace: "SGENV", Opts: []*decl.Opt{by("SubO", "", "subopt", "SUBODESC")}}
 	hid := &decl.Group{Field: "HidG", Name: "HIDGNAME", Hidden: true, Opts: []*decl.Opt{by("HidO", "", "hidgopt", "HIDGODESC")}}
 	top.Groups = []*decl.Group{sub, hid}
-	top.Pos = []*decl.PosArg{{Field: "PA", Name: "PARGA", Type: decl.TString, Desc: "PARGADESC"}, {Field: "PB", Name: "PARGB", Type: decl.TString}}
+	top.Pos = []*decl.PosArg{{Field: "PA", Name: "PARGA", Type: decl.TString, Desc: "PARGADESC"}, {Field: "PB", Name: "PARGB", Type: decl.TString, Desc: "D"}}
 	deep := &decl.Cmd{Field: "Deep", Name: "deep", Desc: "DEEPDESC", Opts: []*decl.Opt{by("DeepO", "", "deepopt", "DEEPODESC")}}
 	cg := &decl.Group{Field: "CG", Name: "CGNAME", Opts: []*decl.Opt{by("CgO", "", "cgopt", "CGODESC")}}
 	add := &decl.Cmd{Field: "Add", Name: "add", Desc: "ADDDESC", LongDesc: "ADDLONGDESC", Aliases: []string{"ADDALX"}, SubOptional: true, Cmds: []*decl.Cmd{deep},
@@ -115,7 +119,10 @@ func c16Build(v c16Vec, placement int) *c16Decl {
 	uml := &decl.Cmd{Field: "Uml", Name: "größe-ändern", Desc: "UMLCDESC"}
 	// a command whose only option sits in a group of its own
 	gonly := &decl.Cmd{Field: "Gonly", Name: "grouponly", Desc: "GONLYCDESC", Groups: []*decl.Group{{Field: "GoG", Name: "GOGNAME", Opts: []*decl.Opt{by("GoO", "", "goopt", "GOODESC")}}}}
-	top.Cmds = []*decl.Cmd{add, rm, hc, bare, uml, gonly}
+	// a command whose description is a single character (it has an alias, shown beside the description)
+	tiny := &decl.Cmd{Field: "TinyC", Name: "tinycmd", Desc: "Z", Aliases: []string{"TINYALX"}}
+	top.Cmds = []*decl.Cmd{add, rm, hc, bare, uml, gonly, tiny}
+	top.Opts[0].Initial = "I" // the field holds a one-character string before the parse: that is its default
 	switch placement {
 	case c16PlParser:
 		top.Opts = append(top.Opts, u)
@@ -143,6 +150,11 @@ func c16Build(v c16Vec, placement int) *c16Decl {
 }
 
 var c16LongWord = strings.Repeat("w", 150) + "ENDW"
+var c16TinyHelpRe = regexp.MustCompile(`--tinyopt=\s+T(\s|$)`)
+var c16TinyManRe = regexp.MustCompile(`(?m)^T$`)
+var c16PargbRe = regexp.MustCompile(`PARGB:\s+D(\s|$)`)
+var c16TinyCmdRe = regexp.MustCompile(`tinycmd\s+Z(\s|$)`)
+var c16InitialRe = regexp.MustCompile(`TOPDESC\s+\(default:\s+I\)`)
 var c16HyphenBreak = regexp.MustCompile("-\n\\s*")
 
 var c16Chains = [][]string{{}, {"add", "ca"}, {"add", "ca", "deep"}, {"rm"}, {"hidcmd"}}
@@ -357,6 +369,9 @@ func init() {
 				if v.def == 1 && !has("UDFLTX%H") {
 					miss("default", "UDFLTX%H")
 				}
+				if v.def == 2 && !has("UMASKX") {
+					miss("default-mask", "UMASKX")
+				}
 				if v.def == 0 && v.env && !has(u.EnvNS) {
 					miss("env", u.EnvNS)
 				}
@@ -380,7 +395,11 @@ func init() {
 			return
 		}
 		if gen == 2 {
-			for _, m := range []string{"toplong", "TOPDESC", `\-\-y`, "ONECHARDESC", "subopt", "SUBODESC", "addopt", "ADDODESC", "cgopt", "deepopt", "rmopt", "ADDDESC", "ADDALX", "DEEPDESC", "RMALX", "RMDESC", "barecmd", "BARECDESC", "leafcmd", "LEAFCDESC", "leafopt", "LEAFODESC", "grouponly", "goopt", "GOODESC"} {
+			if !c16TinyManRe.MatchString(text) {
+				c.Fail("visible-item-missing|man|one-character-description", text)
+				return
+			}
+			for _, m := range []string{"toplong", "TOPDESC", `\-\-y`, `\fIV\fR`, "ONECHARDESC", "subopt", "SUBODESC", "addopt", "ADDODESC", "cgopt", "deepopt", "rmopt", "ADDDESC", "ADDALX", "DEEPDESC", "RMALX", "RMDESC", "barecmd", "BARECDESC", "leafcmd", "LEAFCDESC", "leafopt", "LEAFODESC", "grouponly", "goopt", "GOODESC"} {
 				if !has(m) {
 					c.Fail("visible-item-missing|man|bystander", m)
 					return
@@ -399,7 +418,23 @@ func init() {
 			c.Fail("visible-item-missing|help|over-long-word-of-a-description", map[string]interface{}{"text": text})
 			return
 		}
-		want := []string{"toplong", "TOPDESC", "--y=", "ONECHARDESC", "sgns.subopt", "SUBODESC", "PARGADESC", "PARGA"}
+		if !c16TinyHelpRe.MatchString(text) {
+			c.Fail("visible-item-missing|help|one-character-description", map[string]interface{}{"text": text})
+			return
+		}
+		if !c16InitialRe.MatchString(text) {
+			c.Fail("visible-item-missing|help|default-from-a-one-character-initial-value", map[string]interface{}{"text": text})
+			return
+		}
+		if ci == 0 && (!c16TinyCmdRe.MatchString(text) || !has("TINYALX")) {
+			c.Fail("visible-item-missing|help|one-character-command-description", map[string]interface{}{"text": text})
+			return
+		}
+		if !c16PargbRe.MatchString(text) {
+			c.Fail("visible-item-missing|help|one-character-positional-description", map[string]interface{}{"text": text})
+			return
+		}
+		want := []string{"toplong", "TOPDESC", "--y=V", "ONECHARDESC", "sgns.subopt", "SUBODESC", "PARGADESC", "PARGA"}
 		wantNot := []string{"hidgopt", "HIDGODESC", "HIDGNAME", "hidcmd", "HIDCDESC", "hcopt"}
 		switch ci {
 		case 0:
@@ -434,10 +469,10 @@ func init() {
 		Level:      "exploration",
 		ShardDepth: 6,
 		Body:       body,
-		Rule: "option under test with every attribute vector {short only, long only, both} x description? x default {none, tag, tag+mask, tag+mask '-', the tag '-' itself} x env? x choices? x value-name? x hidden? (spelled yes / False / NO) x required? (768 vectors; defaults, masks and descriptions contain per-cent signs; without a default also as a bool-kinded Unmarshaler type) " +
+		Rule: "option under test with every attribute vector {short only, long only, both} x description? x default {none, tag, tag+mask, tag+mask '-', the tag '-' itself} x env? x choices? (two; a single one when there is an env key and no default) x value-name? x hidden? (spelled yes / False / NO) x required? (768 vectors; defaults, masks and descriptions contain per-cent signs; without a default also as a bool-kinded Unmarshaler type) " +
 			"x 10 placements (parser group, namespaced subgroup with env-namespace, hidden subgroup, command, command's group, hidden command, sub-subcommand, sibling command, subgroup nested in the env-namespaced subgroup without / with its own env-namespace) x 5 active chains (none, add, add deep, rm, the hidden command) " +
 			"x {WriteHelp after a parse that selects the chain, the ErrHelp text of --help at that chain, WriteManPage} (+ the ErrHelp text requested after an occurrence of the option with a value, which must not show up; + a variant where one command is hidden and another un-hidden through the public Hidden field after a first help/man rendering on the same parser); every string is a unique marker; oracle: a visible option's markers (names, value name, choices, description, default or mask, env) are present and its description sits on its row, " +
-			"nothing of a hidden option / hidden group / hidden or inactive command appears, a masked default's real value never appears; the fixed part of the declaration (bystander options, one of them with a long name of a single character and a 154-character word in its description (complete after undoing the hyphen breaks), described positionals, commands with aliases, hidden command and group, a command without options of its own whose subcommand has one, a described command with a multi-byte name, a func(string) option with a description) is checked on every leaf; " +
+			"nothing of a hidden option / hidden group / hidden or inactive command appears, a masked default's real value never appears; the fixed part of the declaration (bystander options, one of them with a long name and a value name of a single character each and a 154-character word in its description (complete after undoing the hyphen breaks), another whose whole description is one character, a positional argument and a command (with an alias) described by one character each, an option whose default is the one-character string its field holds, described positionals, commands with aliases, hidden command and group, a command without options of its own whose subcommand has one, a described command with a multi-byte name, a func(string) option with a description) is checked on every leaf; " +
 			"distinct = distinct (generator, visible?, placement, chain, markers present)",
 		Assumptions:  []string{"not demanded of the man page: choices, positional arguments, env beside a default (man.go never rendered them)", "help of an active hidden command is not defined by the statement and is skipped"},
 		RequiredHits: []string{"visible|help", "invisible|help", "visible|man", "invisible|man", "value-given-before-help"},
